@@ -292,3 +292,50 @@ Proof.
   destruct (amount_of outc =? 0) eqn:E0; cbn [leaves_eff leaf_eff plain sm_msg camt denom_of amount_of fst snd]; unfold ind;
     destruct (String.eqb a sender), (String.eqb a PM), (String.eqb a (addr_or_default w r sender)), (String.eqb (so_out lst) d); lia.
 Qed.
+
+(* C09 at transaction level: an emergency withdrawal. Either the position has already unlocked and the whole recorded
+   amount goes back to its owner, or exactly these transfers out of the farm manager take effect, all in the position's
+   LP denom: [per] to each owner of a currently active farm, [collector] to the fee collector, the rest to the position's
+   owner — together at most the recorded amount, the penalty part at most 90% of it. Nothing else moves. *)
+Theorem emergency_withdraw_tx_balances w sender funds id w' :
+  run_tx w sender FM (WFm (FmPosWithdraw id (Some true))) funds = Ok w' ->
+  exists p, sfind pos_id id (fm_positions (w_fm w)) = Some p /\ pos_recv p = sender /\ funds = [] /\
+    let lp := denom_of (pos_lp p) in let amount := amount_of (pos_lp p) in
+    ((exists e, pos_exp p = Some e /\ e <= seconds (w_block w)) /\
+     forall a d, bal (w_bank w') a d = bal (w_bank w) a d
+                 + leaves_eff FM (w_tf_fee w) (if amount =? 0 then [] else [send_to sender lp amount]) a d)
+    \/
+    (position_is_expired p (seconds (w_block w)) = false /\
+     exists tp owners per collector,
+      0 <= tp < amount /\ tp * 10 <= amount * 9 /\ 0 <= per /\ 0 <= collector /\
+      Z.of_nat (List.length owners) * per + collector <= tp /\ (owners = [] -> collector = tp) /\
+      forall a d,
+        bal (w_bank w') a d = bal (w_bank w) a d
+          + leaves_eff FM (w_tf_fee w)
+              (map (fun o => send_to o lp per) owners ++
+               (if 0 <? collector then [send_to (fm_fee_collector (fm_cfg (w_fm w))) lp collector] else []) ++
+               (if ssub amount tp =? 0 then [] else [send_to sender lp (ssub amount tp)])) a d).
+Proof.
+  intros H. destruct (leaf_tx_balances _ _ _ _ _ _ H) as (wa & w2 & msgs & Hsa & Hsup & Eh & Hbal).
+  apply handle_ok_typed in Eh. destruct Eh as (Eh & _ & _).
+  unfold handle_typed in Eh. cbn [String.eqb EM FC PM FM Ascii.eqb Bool.eqb] in Eh.
+  apply bind_ok in Eh. destruct Eh as [[s1 msgs1] [Hx Eh]]. inversion Eh; subst w2 msgs; clear Eh.
+  cbn [fm_execute] in Hx.
+  apply withdraw_position_spec in Hx. destruct Hx as (Hf & p & Hp & Hrecv & _ & _ & _ & _ & _ & Hcases).
+  destruct Hsa as (Hblk & _ & _ & _ & _ & _ & Hfma).
+  exists p. rewrite <- Hfma. split; [exact Hp|]. split; [exact Hrecv|]. split; [exact Hf|].
+  cbv zeta in *. subst funds. rewrite Hblk in Hcases. rewrite Hrecv in Hcases.
+  assert (Hleaf : forall l, Forall (fun m => exists to cs, m = plain (MBankSend to cs)) l -> forallb plain_leaf l = true).
+  { induction l as [|x r IH]; intros F; [reflexivity|]. inversion F as [|y ys (to & cs & ->) Fr]; subst. cbn. apply IH. exact Fr. }
+  assert (Hc0 : forall a d, camt [] d = 0 /\ ind (String.eqb a sender) 0 = 0) by (intros; split; [reflexivity | unfold ind; destruct (String.eqb a sender); reflexivity]).
+  destruct Hcases as [(_ & He & Hm)|(_ & Hne & tp & owners & per & collector & Htp & H90 & Hper & Hcol & Hsum & Hnone & Hm)].
+  - left. split; [exact He|]. intros a d. subst msgs1. rewrite Hbal.
+    + cbn [camt]. unfold ind. destruct (String.eqb a sender), (String.eqb a FM); lia.
+    + destruct (amount_of (pos_lp p) =? 0); reflexivity.
+  - right. split; [exact Hne|]. exists tp, owners, per, collector.
+    split; [exact Htp|]. split; [exact H90|]. split; [exact Hper|]. split; [exact Hcol|]. split; [exact Hsum|]. split; [exact Hnone|].
+    rewrite Hfma in Hm. rewrite Hfma. intros a d. subst msgs1. rewrite Hbal.
+    + cbn [camt]. unfold ind. destruct (String.eqb a sender), (String.eqb a FM); lia.
+    + rewrite !forallb_app. rewrite Hleaf; [|apply Forall_forall; intros m Hm; apply in_map_iff in Hm; destruct Hm as (o & <- & _); unfold send_to; eauto].
+      destruct (0 <? collector), (ssub (amount_of (pos_lp p)) tp =? 0); reflexivity.
+Qed.
